@@ -129,6 +129,28 @@ def selftest(work, ncases, ccases, nverd, cverd):
     return len(muts)
 
 
+def settle_crashes(r, cases, verdicts, work, name, jobs=12):
+    """A dead or hung replay process is attributed to the behaviour that was running.  The known
+    lent-reference defects are real memory-safety bugs, so the process may also die one behaviour LATER.
+    Every unattributed crash / hang is therefore re-run in a process of its own: if it reproduces it stays
+    a failing verdict; if it does not and the behaviour that ran just before it in the same process failed
+    with a known finding, the isolated verdict counts and the event is noted; otherwise it stays failing."""
+    njobs = max(1, min(jobs, (len(cases) + 19) // 20))
+    for i, v in enumerate(verdicts):
+        if v["pass"] or not v["why"].startswith("process ") or vlib.match_finding(PROP, cases[i], v, r.findings):
+            continue
+        v2 = vlib.replay([cases[i]], work, jobs=1, timeout_ms=6000, name=name + "-iso", binary=BIN)[0]
+        if not v2["pass"] and v2["why"].startswith("process "):
+            continue
+        j = i - njobs
+        prev = vlib.match_finding(PROP, cases[j], verdicts[j], r.findings) if j >= 0 and not verdicts[j]["pass"] else None
+        if prev:
+            r.notes.append(f"{cases[i]['id']}: '{v['why']}' did not reproduce in a process of its own; the behaviour before it "
+                           f"({cases[j]['id']}) failed with {prev['key']}; isolated verdict used")
+            verdicts[i] = v2
+    return verdicts
+
+
 def run(tier, seed):
     work = os.path.join(vlib.WORK, PROP)
     r = vlib.Result(PROP, tier, seed)
@@ -136,12 +158,12 @@ def run(tier, seed):
     quick = tier == "quick"
 
     # ---- 1. design level (Nursery.tla): per-guard ownership satisfies the invariants ...
-    res = vlib.run_tlc("Nursery", "MC_Nursery_fixed_quick.cfg" if quick else "MC_Nursery_fixed.cfg", work,
-                       workers=8, timeout=900, allow_violation=True)
-    r.add_tlc(res)
-    if res["violation"]:
-        r.violation(f"Nursery.tla with per-guard ownership violates {res.get('violated')}",
-                    {"id": "nursery-model-fixed", "tlc": res["violation"][:3000]})
+    for cfg in ["MC_Nursery_fixed_quick.cfg"] + ([] if quick else ["MC_Nursery_fixed.cfg"]):
+        res = vlib.run_tlc("Nursery", cfg, work, workers=8, timeout=900, allow_violation=True)
+        r.add_tlc(res)
+        if res["violation"]:
+            r.violation(f"Nursery.tla with per-guard ownership and a waiting drop violates {res.get('violated')} ({cfg})",
+                        {"id": "nursery-model-fixed", "tlc": res["violation"][:3000]})
     # ... and the mechanism as coded (a per-thread stack popped by count) violates each of them
     for cfg, inv in ASIS:
         res = vlib.run_tlc("Nursery", cfg, work, workers=1, timeout=300, allow_violation=True)
@@ -160,7 +182,7 @@ def run(tier, seed):
     runs = [("MC_Nursery_gen_quick.cfg", None, None), ("MC_Nursery_pair.cfg", None, None),
             ("MC_Nursery_thread.cfg", None, None)]
     if not quick:
-        runs += [("MC_Nursery_gen_full1.cfg", None, None), ("MC_Nursery_gen_acts2.cfg", None, 12000),
+        runs += [("MC_Nursery_gen_full1.cfg", None, None), ("MC_Nursery_gen_acts2.cfg", None, 8000),
                  ("MC_Nursery_sim.cfg", "num=400", None)]
     ncases, seen = [], set()
     for cfg, sim, cap in runs:
@@ -176,6 +198,7 @@ def run(tier, seed):
                 seen.add(c["id"])
                 ncases.append(c)
     nverd = vlib.replay(ncases, work, jobs=12, timeout_ms=6000, name="c20-nursery", binary=BIN)
+    nverd = settle_crashes(r, ncases, nverd, work, "c20-nursery")
     r.add_cases(ncases, nverd, nontrivial=nontrivial)
 
     # ---- 3. conversions.  Convert.tla has no Next: TLC evaluates everything (the initial states and the
